@@ -432,7 +432,7 @@ def render_module(mod, rng):
             ext = ", extends(%s)" % e["extends"] if e.get("extends") else ""
             L.append("  type%s%s :: %s" % (attr, ext, _mix(rng, e["name"])))
             L.extend(_doc_line(e, "    "))
-            L.append("    integer :: c_%s" % e["name"])
+            L.append("    integer :: c_%s !! component of %s" % (e["name"], e["name"]))
             if e.get("comp_type"):
                 L.append("    type(%s) :: k_%s" % (e["comp_type"], e["name"]))
             L.append("  end type %s" % e["name"])
